@@ -3,6 +3,7 @@ import CssVerif.Lemmas.SelPrep
 import CssVerif.Lemmas.SelUsed
 import CssVerif.Lemmas.SelList
 import CssVerif.Lemmas.SelAcc
+import CssVerif.Lemmas.SelTok
 /-!
 # C16 — selector specificity, structure and list semantics
 
@@ -272,5 +273,91 @@ example : ∃ r, parseCore demoNs demo.raw = .ok (some r) ∧ (r.b, r.c, r.d) = 
 /-- TEST (evaluation on one input, not a theorem): `:NOT(` and `:n\ot(` in any case are the negation -/
 example : (parseCore [] [⟨.ident, [97]⟩, ⟨.char, [58]⟩, ⟨.function, [78, 79, 84, 40]⟩, ⟨.char, [46]⟩, ⟨.ident, [98]⟩,
     ⟨.char, [41]⟩]).toOption.join.map (fun r => (r.b, r.c, r.d)) = some (0, 1, 1) := by decide
+
+/-! ## T16.4 — text level: the tokenizer model (`Model/Tok.lean`, kernel K1 of C05) in front of the selector model
+
+`tokensOf text` = `Tokenizer().tokenize(text)` (no full sheet, comments kept) handed to `Selector` by type name and
+value; `flat l` = the concatenation of the token values; `Sel.text s = flat s.raw`.
+`plainChain l` (decidable, `Model/SelText.lean`) = **plain spelling**: every token is an escape-free lexeme of its
+class — IDENT / HASH / FUNCTION names of ASCII letters, digits, `-`, `_` starting with a letter other than `u` `U` or
+with `_` (a FUNCTION other than `and(`), white space of any length and kind, comments without an inner `*`, strings in
+either quote style without backslash and line break, unsigned integers, the five match operators, the characters
+`, : > [ ] = ) * | ~ . +` — and each token may be followed by the first code point of the next one (a name by
+anything but a name code point, backslash or `(`; white space by non-white space; `* | ~` not by `=`; `.` not by a
+digit; `+` not by a digit or `.`; an integer not by a name code point, `%`, `.`, `(`). -/
+
+/-- **T16.4 `tokenize_plain`.** For every token list in plain spelling the tokenizer, run on the concatenation of
+the token values, returns exactly these tokens: no two neighbours fuse, none is split, every type and value is kept
+(no separating white space is needed — `a.b#c[d|=e]:not(f)>g` —, unlike `C05.lexeme_separation`). -/
+theorem tokenize_plain (l : List Tok) (h : plainChain l = true) : tokensOf (flat l) = l := tokensOf_plain l h
+
+/-- **T16.4 `text_render`** (`parse (tokenize (renderText ast)) = ast`). For every written selector of the grammar
+of `spec_render` in plain spelling: tokenizing its *text* and running `_prepare_tokens`, the `New` state machine and
+the post-conditions on the tokenizer's output yields the specificity `(0, count)`, the item sequence and the `element`
+as written — text to structure, both kernels composed, no exception, not rejected. -/
+theorem text_render (ns : NsMap) (s : Sel) (hs : s.ok ns = true) (hp : plainChain s.raw = true) :
+    parseCore ns (tokensOf s.text)
+      = .ok (some { b := s.count.1, c := s.count.2.1, d := s.count.2.2, seq := s.items ns, element := s.element ns }) := by
+  rw [Sel.text, tokenize_plain s.raw hp]
+  exact spec_render ns s hs
+
+/-- … and `Selector.selectorText = text` commits exactly that -/
+theorem text_render_commit (ns : NsMap) (s : Sel) (hs : s.ok ns = true) (hp : plainChain s.raw = true) :
+    ∃ used, parseSel ns (tokensOf s.text)
+      = .ok (some { b := s.count.1, c := s.count.2.1, d := s.count.2.2, seq := s.items ns, element := s.element ns,
+                    nsUsed := used }) := by
+  rw [Sel.text, tokenize_plain s.raw hp]
+  exact spec_render_commit ns s hs
+
+/-- at text level: two plain texts with the same skeleton get the same specificity -/
+theorem text_specificity_depends_on_skeleton_only (ns₁ ns₂ : NsMap) (s₁ s₂ : Sel) (h₁ : s₁.ok ns₁ = true)
+    (h₂ : s₂.ok ns₂ = true) (p₁ : plainChain s₁.raw = true) (p₂ : plainChain s₂.raw = true) (hk : s₁.skel = s₂.skel) :
+    ∃ r₁ r₂, parseCore ns₁ (tokensOf s₁.text) = .ok (some r₁) ∧ parseCore ns₂ (tokensOf s₂.text) = .ok (some r₂) ∧
+      (r₁.b, r₁.c, r₁.d) = (r₂.b, r₂.c, r₂.d) := by
+  refine ⟨_, _, text_render ns₁ s₁ h₁ p₁, text_render ns₂ s₂ h₂ p₂, ?_⟩
+  simp [Sel.count, hk]
+
+/- Full statement of the text level (every spelling): the same with `Sel.source s` — the token *spellings*, i.e. with
+   backslash escapes, names that start with `u`, `U`, `-` or a non-ASCII code point, comments containing `*`, signed and
+   fractional numbers, dimensions — in place of `Sel.text s`, and no hypothesis `plainChain`. Missing: the lexeme
+   classes with escapes (`unicodesub` on the value), the `u`/`U` start (productions URI and UNICODE-RANGE come first),
+   DIMENSION / signed NUMBER with a general stop. Those spellings are covered by the correspondence streams
+   `spec` (`Sel.raw` = the real tokenizer's tokens) and `seltext` (model pipeline on the text = `Selector(text)`).
+   Round trip at text level (`tokensOf (SelRec.text r)` parses to the same items): not proved; it needs the
+   serialisation `serItems` written as a plain chain (a canonical re-spelling of the written selector); checked on
+   the implementation by the round-trip oracle on every accepted selector. -/
+
+/-- `*|div#i/*x*/.c[ p|href ~='a']:hover:not( [|x]):not(:nth-child(2)):before > p|*:lang( en ) ::x(a) /*t*/ ` -/
+def demoText : Sel := {
+  lead := [.ws [32]],
+  first := {
+    head := some ⟨.any, some [100, 105, 118]⟩,
+    rest := [([], .id [35, 105]), ([[47, 42, 120, 42, 47]], .cls [99]),
+             ([], .attr { f1 := [.ws [32]], pfx := .named [112], name := [104, 114, 101, 102], f2 := [.ws [32]],
+                          opv := some (.includes, [], .string [39, 97, 39], []) }),
+             ([], .pseudo false [104, 111, 118, 101, 114]),
+             ([], .not [110, 111, 116, 40] [.ws [32]]
+                    (.attr { f1 := [], pfx := .empty, name := [120], f2 := [], opv := none }) []),
+             ([], .not [110, 111, 116, 40] [] (.func false [110, 116, 104, 45, 99, 104, 105, 108, 100, 40] [.num [50]]) []),
+             ([], .pseudo false [98, 101, 102, 111, 114, 101])] },
+  more := [(⟨[.ws [32]], some (.child, [.ws [32]])⟩,
+            { head := some ⟨.named [112], none⟩,
+              rest := [([], .func false [108, 97, 110, 103, 40] [.ws [32], .ident [101, 110], .ws [32]])] }),
+           (⟨[.ws [32]], none⟩, { head := none, rest := [([], .func true [120, 40] [.ident [97]])] })],
+  trail := [.ws [32], .cm [47, 42, 116, 42, 47], .ws [32]] }
+
+example : demoText.ok demoNs = true := by decide
+example : plainChain demoText.raw = true := by decide
+/-- the theorem applied: text in, specificity `(0,1,3,3)` out -/
+example : ∃ r, parseCore demoNs (tokensOf demoText.text) = .ok (some r) ∧ (r.b, r.c, r.d) = (1, 3, 3) :=
+  ⟨_, text_render demoNs demoText (by decide) (by decide), by decide⟩
+/-- neighbours that would fuse are not plain: `a` directly followed by `b`; `*` followed by `=`; `.` followed by `5` -/
+example : plainChain [⟨.ident, [97]⟩, ⟨.ident, [98]⟩] = false ∧ plainChain [⟨.char, [42]⟩, ⟨.char, [61]⟩] = false ∧
+    plainChain [⟨.char, [46]⟩, ⟨.number, [53]⟩] = false := by decide
+/-- TEST (evaluation of the tokenizer model on one text, not a theorem): `a.b#c[d|=e]:not(f)>g` -/
+example : tokensOf [97, 46, 98, 35, 99, 91, 100, 124, 61, 101, 93, 58, 110, 111, 116, 40, 102, 41, 62, 103] =
+    [⟨.ident, [97]⟩, ⟨.char, [46]⟩, ⟨.ident, [98]⟩, ⟨.hash, [35, 99]⟩, ⟨.char, [91]⟩, ⟨.ident, [100]⟩,
+     ⟨.dashmatch, [124, 61]⟩, ⟨.ident, [101]⟩, ⟨.char, [93]⟩, ⟨.char, [58]⟩, ⟨.function, [110, 111, 116, 40]⟩,
+     ⟨.ident, [102]⟩, ⟨.char, [41]⟩, ⟨.char, [62]⟩, ⟨.ident, [103]⟩] := by decide +kernel
 
 end CssVerif.C16
